@@ -944,6 +944,7 @@ func genCase(r *vf.Rand, i int, thorough bool) Desc {
 const (
 	sigReshuffle = "compile-result-reshuffle-missing-partitioner"
 	sigEnv       = "compile-env-writable-on-worker"
+	sigOpName    = "compile-op-name-without-invocation-index"
 )
 
 func graphKey(o Obs) string {
@@ -1043,6 +1044,12 @@ func classify(d Desc, obs []Obs) (kind, nontriv, sig string) {
 		}
 		if foreign && len(t.Deps) == 1 && len(t.Group) > 0 && (t.NumPart == 0 || t.PartKind == 0) {
 			sigs = append(sigs, sigReshuffle)
+			break
+		}
+	}
+	for _, t := range o0.Tasks[o0.NInit:] {
+		if !strings.HasPrefix(t.Op, fmt.Sprintf("inv%d_", t.Inv)) {
+			sigs = append(sigs, sigOpName)
 			break
 		}
 	}
